@@ -122,3 +122,27 @@ func VerifH_C15_DefaultConfigIsolation() {
 		verifrt.Assert(cl.m.Size() == before+2, "different /48: separate buckets")
 	}
 }
+
+// VerifH_C15_GcKeepsActiveBuckets: the collector only forgets IDLE buckets. A client seen at instant t1 whose
+// bucket is collected before t1 + entryTtl would get a fresh full burst: the admitted total over that window would
+// exceed burst + rate x window. For every pair of clock readings (request, collection) less than the TTL apart, and
+// any other bucket in the table, the bucket object is still the same afterwards.
+func VerifH_C15_GcKeepsActiveBuckets() {
+	cl := vLimiter()
+	a, _ := vAddr4("a")
+	other, _ := vAddr4("b")
+	t0 := time.Now()
+	cl.AllowN(other, t0, 1) // another client, seen earlier
+	t1 := time.Now()
+	cl.AllowN(a, t1, 1)
+	before, ok1 := cl.m.Load(cl.mask(a))
+	verifrt.Assert(ok1 && before != nil, "the request created / used the bucket of its subnet")
+	cl.gc()
+	t3 := time.Now() // not earlier than the instant gc looked at the clock
+	after, ok2 := cl.m.Load(cl.mask(a))
+	verifrt.Reach("collected")
+	if t3.Sub(t1) < entryTtl {
+		verifrt.Reach("active")
+		verifrt.Assert(ok2 && after == before, "a bucket used less than the idle TTL ago survives collection (same bucket, same tokens)")
+	}
+}
